@@ -23,6 +23,7 @@ WARM_CODE = 'import outrank.core_ranking'
 
 CELLS = ['', 'a', 'abc', ' a', 'a ', ' ', 'a b', 'a,b', ',', ',,', '"', 'say "hi"', '""', '"a"', "it's", 'a\tb', '\t', 'é', '中文', '😀', ' x', 'x ', '\u0085x', 'x\u0085',
          ' ', '0', '-1', '1.5e3', '{}', '{"k": "v,w"}', 'a;b', 'a|b', 'x' * 300, '\x0bq', 'q\x0c', '\x1c', 'AND', 'nan', 'None']
+CELLS += ['C:\\data, old\\', 'say \\"hi\\"', 'back\\slash', '\\', 'p,q\\', '\\"', 'a\\"b,c']      # backslashes are ordinary characters in CSV
 TSV_CELLS = [c for c in CELLS if '\t' not in c]
 
 
@@ -93,7 +94,7 @@ def shard_tsv(sh, part):
         sh.case(('tsv', core.h64(line)), nontrivial_cells(cells), 'tsv', sample={'cells': cells, 'line': line, 'parsed': list(got) if ok else None} if t % 700 == 0 else None)
 
 
-VW_TOKS = ['ab', 'abc', 'x1', 'a', 'é1', 'ab_cd', 'AB:1.5', '12345', 'a-b', 'q,r', 'a"b', '中文x', '--', 'ab=3', '{}']
+VW_TOKS = ['ab', 'abc', 'x1', 'a', 'é1', 'ab_cd', 'AB:1.5', '12345', 'a-b', 'q,r', 'a"b', '中文x', '--', 'ab=3', '{}', 'New\xa0York', 'a\u3000b', '1\u202f000', 'x\ty', 'q\u2009r']
 
 
 def shard_vw(sh, part):
